@@ -101,8 +101,16 @@ class Concrete:
 
 
 def concretize(case, profile, seed):
+    """-> (value map, all objects of the file, objects the reader is expected to deliver)"""
     c = Concrete(case["ds"], profile, seed)
-    return c, [c.obj(m) for m in case["exp"]]
+    if "all" in case:                      # o5m: the reader may have been asked for a subset of the object types
+        objs = [c.obj(m) for m in case["all"]]
+        exp = [o for o in objs if o["t"] in case["mask"]]
+        if exp != [c.obj(m) for m in case["exp"]]:
+            raise ValueError("the spec's selection is not the filter of its object list")
+        return c, objs, exp
+    objs = [c.obj(m) for m in case["exp"]]
+    return c, objs, objs
 
 
 # ------------------------------------------------------------------------------------- plans
@@ -242,6 +250,16 @@ def features(case):
     if fmt == "o5m":
         n = case["N"]
         f.add("o5m variant=" + case["variant"])
+        f.add("o5m mask=" + "".join(t for t in "nwr" if t in case.get("mask", "nwr")))
+        lt, fr = None, True
+        for st in steps:
+            if st["a"] == "reset":
+                fr = True
+            elif st["a"] == "obj":
+                t = case["all"][st["i"]]["t"]
+                if lt is not None and t != lt and not fr:
+                    f.add("o5m no reset at a type change")
+                lt, fr = t, False
         inserted = 0
         seen_reset_after_obj = False
         last = None
